@@ -1093,8 +1093,17 @@ def render_partitioned(r, iface, rng, location="http://svc.invalid/endpoint", sc
             # a diamond of wsdl:imports: the binding lives in a third document that imports the interface too
             bind_url = url_for("binding.wsdl")
             plan["wsdl_diamond"] = True
+            again = ""
+            if wimports and rng.random() < 0.6:
+                # ... and wsdl:imports the schema documents the interface document wsdl:imports as well
+                plan["xsd_wimport_diamond"] = True
+                for ns in range(n):
+                    pl = place[(ns, 0)]
+                    if pl[0] == "doc" and pl[2] == "wimport":
+                        again += '<wsdl:import namespace="%s" location="%s"/>' % (
+                            iface["namespaces"][ns]["uri"], relative_to(bind_url, pl[1], rng))
             docs[bind_url] = definitions(r, iface, wns, '<wsdl:import namespace="%s" location="%s"/>'
-                                         % (wns, relative_to(bind_url, iface_url, rng)) + sec["binding"])
+                                         % (wns, relative_to(bind_url, iface_url, rng)) + again + sec["binding"])
             second = '<wsdl:import namespace="%s" location="%s"/>' % (wns, relative_to(root_url, bind_url, rng))
             root_inner = (root_inner + second) if rng.random() < 0.5 else (second + root_inner)
             docs[root_url] = definitions(r, iface, wns, root_inner + sec["service"])
